@@ -5,7 +5,10 @@
 //! life r<min ms>.<max ms> m<max timeouts|0> t<request timeout ms> [tls:]<behaviours> <stops>
 //!   behaviours: `/`-joined, one per connection attempt (the last one repeats; `<b>*<n>` stands
 //!               for n attempts with behaviour b):
-//!               refuse | close | garbage | silent | serve
+//!               refuse | close | garbage | silent | serve | serve<k> | serve<k>w
+//!               (serve<k>: answer k requests and close right after the k-th reply; serve<k>w:
+//!               answer k requests and close when the next one is received.  A peer that closes
+//!               shuts down its sending side and keeps reading, so that it sees the client close)
 //!               with the prefix `tls:` the channel is the production TLS client
 //!               (`create_tls_client_task_with_options`, self-signed pair ss_a / ss_b of
 //!               $VERIF_CERTS) and the behaviours are
@@ -20,7 +23,10 @@
 //!               E (enable) D (disable) S (shutdown) X (drop every handle) R (submit a read)
 //!               L<0..3> (`Channel::set_decode_level`); `<stop>*<n>` stands for n copies
 //! A stop is consumed each time the task reaches a listener callback (gate) or has been quiet
-//! for IDLE ms. Output: the event log (`;`-joined) and a summary.
+//! for IDLE ms; the stops left over when the task has ended are performed on the handles of the
+//! ended task. The peer of every connection reports when it sees the client close it; the log
+//! entry `closed` is written in front of the state announced next if the peer of the connection
+//! announced `Connected` has seen that by then. Output: the event log (`;`-joined) and a summary.
 use crate::util::*;
 use rodbus::client::*;
 use rodbus::server::*;
@@ -181,53 +187,172 @@ impl PortKeeper {
     }
 }
 
-async fn serve_connection(mut sock: tokio::net::TcpStream, behaviour: String) {
+/// what the scripted peers have observed, per connection attempt (`gen`)
+#[derive(Default)]
+struct PeerLog {
+    /// the peer has done what its behaviour says happens unprovoked (closed / sent garbage)
+    acted: Vec<usize>,
+    /// the peer has seen the client close the connection (EOF or reset)
+    closed: Vec<usize>,
+}
+
+type Peer = Arc<Mutex<PeerLog>>;
+
+/// wait (at most `ms`) until `cond` holds for what the peers have observed
+async fn peer_wait(peer: &Peer, ms: u64, cond: impl Fn(&PeerLog) -> bool) -> bool {
+    let start = Instant::now();
+    let mut i = 0usize;
+    loop {
+        if cond(&peer.lock().unwrap()) {
+            return true;
+        }
+        if start.elapsed() > Duration::from_millis(ms) {
+            return false;
+        }
+        if i < 4 {
+            tokio::task::yield_now().await;
+        } else {
+            tokio::time::sleep(Duration::from_millis(1)).await;
+        }
+        i += 1;
+    }
+}
+
+/// read (and ignore) whatever the client still sends, until it closes the connection
+async fn drain_until_closed(sock: &mut tokio::net::TcpStream, gen: usize, peer: &Peer) {
+    let mut buf = [0u8; 1024];
+    loop {
+        match sock.read(&mut buf).await {
+            Ok(0) | Err(_) => break,
+            Ok(_) => {}
+        }
+    }
+    peer.lock().unwrap().closed.push(gen);
+}
+
+/// `serve<k>` / `serve<k>w`: (k, close only when the next request arrives)
+fn serve_limit(behaviour: &str) -> Option<(usize, bool)> {
+    let rest = behaviour.strip_prefix("serve")?;
+    if rest.is_empty() {
+        return None;
+    }
+    let (digits, wait) = match rest.strip_suffix('w') {
+        Some(d) => (d, true),
+        None => (rest, false),
+    };
+    digits.parse::<usize>().ok().map(|k| (k, wait))
+}
+
+async fn serve_connection(mut sock: tokio::net::TcpStream, behaviour: String, gen: usize, peer: Peer) {
     match behaviour.as_str() {
-        "close" | "hsclose" => {
+        "hsclose" => {
             drop(sock);
+        }
+        "close" => {
+            // close the sending side at once; keep reading to see the client close
+            let _ = sock.shutdown().await;
+            peer.lock().unwrap().acted.push(gen);
+            drain_until_closed(&mut sock, gen, &peer).await;
         }
         "hsgarbage" => {
             // content type 0 is no TLS record: the handshake fails on the client
             let _ = sock.write_all(&[0, 1, 0xFF, 0xFF, 0, 2, 1, 3]).await;
-            let mut buf = [0u8; 1024];
-            while let Ok(n) = sock.read(&mut buf).await {
-                if n == 0 {
-                    break;
-                }
-            }
+            drain_until_closed(&mut sock, gen, &peer).await;
         }
         "garbage" => {
             // protocol id 0xFFFF: framing error on the client
             let _ = sock.write_all(&[0, 1, 0xFF, 0xFF, 0, 2, 1, 3]).await;
-            let mut buf = [0u8; 256];
-            while let Ok(n) = sock.read(&mut buf).await {
-                if n == 0 {
-                    break;
-                }
-            }
+            peer.lock().unwrap().acted.push(gen);
+            drain_until_closed(&mut sock, gen, &peer).await;
         }
         "silent" => {
-            let mut buf = [0u8; 256];
-            while let Ok(n) = sock.read(&mut buf).await {
-                if n == 0 {
-                    break;
-                }
-            }
+            drain_until_closed(&mut sock, gen, &peer).await;
         }
-        _ => {
-            // serve: answer every read-holding-registers request of one register with 0x1234
+        b => {
+            // serve: answer every read-holding-registers request of one register with 0x1234;
+            // serve<k>: k of them, then close; serve<k>w: close when request k+1 has arrived
+            let limit = serve_limit(b);
+            let mut served = 0usize;
             let mut buf = [0u8; 12];
             loop {
+                if let Some((k, false)) = limit {
+                    if served >= k {
+                        let _ = sock.shutdown().await;
+                        peer.lock().unwrap().acted.push(gen);
+                        break;
+                    }
+                }
                 if sock.read_exact(&mut buf).await.is_err() {
-                    break;
+                    // the client closed (or reset) the connection
+                    peer.lock().unwrap().closed.push(gen);
+                    return;
+                }
+                if let Some((k, true)) = limit {
+                    if served >= k {
+                        let _ = sock.shutdown().await;
+                        break;
+                    }
                 }
                 let reply = [buf[0], buf[1], 0, 0, 0, 5, buf[6], 3, 2, 0x12, 0x34];
                 if sock.write_all(&reply).await.is_err() {
                     break;
                 }
+                served += 1;
             }
+            drain_until_closed(&mut sock, gen, &peer).await;
         }
     }
+}
+
+/// TLS mode, behaviours answered by the in-process rodbus TLS server: the harness accepts the
+/// client's TCP connection itself and relays the bytes to the server, so that it sees the client
+/// close the connection like the scripted peers do
+async fn relay_connection(client: tokio::net::TcpStream, server: std::net::SocketAddr, gen: usize, peer: Peer) {
+    let mut client = client;
+    let mut server = match tokio::net::TcpStream::connect(server).await {
+        Ok(s) => s,
+        Err(_) => {
+            let _ = client.shutdown().await;
+            drain_until_closed(&mut client, gen, &peer).await;
+            return;
+        }
+    };
+    let _ = server.set_nodelay(true);
+    let _ = client.set_nodelay(true);
+    let (mut cr, mut cw) = client.split();
+    let (mut sr, mut sw) = server.split();
+    let up = async {
+        let mut buf = [0u8; 4096];
+        let mut server_gone = false;
+        loop {
+            match cr.read(&mut buf).await {
+                Ok(0) | Err(_) => break,
+                Ok(n) => {
+                    if !server_gone && sw.write_all(&buf[..n]).await.is_err() {
+                        server_gone = true;
+                    }
+                }
+            }
+        }
+        peer.lock().unwrap().closed.push(gen);
+        let _ = sw.shutdown().await;
+    };
+    let down = async {
+        let mut buf = [0u8; 4096];
+        loop {
+            match sr.read(&mut buf).await {
+                Ok(0) | Err(_) => break,
+                Ok(n) => {
+                    if cw.write_all(&buf[..n]).await.is_err() {
+                        break;
+                    }
+                }
+            }
+        }
+        // the server is gone: the client sees the end of the stream
+        let _ = cw.shutdown().await;
+    };
+    tokio::join!(up, down);
 }
 
 pub async fn run_life(tok: &[&str]) -> String {
@@ -269,8 +394,11 @@ pub async fn run_life(tok: &[&str]) -> String {
 
     let log: Arc<Mutex<Vec<String>>> = Arc::new(Mutex::new(Vec::new()));
     let accepts = Arc::new(Mutex::new(0usize));
-    // attempts answered by the in-process TLS server (their accepts are not seen here)
-    let mut server_attempts = 0usize;
+    let peer: Peer = Arc::new(Mutex::new(PeerLog::default()));
+    // number of the connection attempt announced last, and the attempt whose connection has been
+    // announced `Connected` and not yet been reported closed
+    let mut gen = 0usize;
+    let mut open_conn: Option<usize> = None;
 
     // reserve a port for the whole case
     let mut port = PortKeeper::new();
@@ -315,7 +443,8 @@ pub async fn run_life(tok: &[&str]) -> String {
         )
     };
     let join = tokio::spawn(task.run());
-    let mut handles: Vec<Channel> = vec![channel];
+    // two handles: the second one is used for every other action after the task has ended
+    let mut handles: Vec<Channel> = vec![channel.clone(), channel];
     let mut stop_idx = 0usize;
     let mut rid = 0usize;
     let mut wait_started: Option<(Instant, u128)> = None;
@@ -327,6 +456,13 @@ pub async fn run_life(tok: &[&str]) -> String {
         let mut release: Option<tokio::sync::oneshot::Sender<()>> = None;
         match ev {
             Ok(Some((state, rel))) => {
+                // the connection announced `Connected` must be closed before the next state is
+                // announced: by now its peer has seen that (loopback), or it never will
+                if let Some(g) = open_conn.take() {
+                    if peer_wait(&peer, 300, |p| p.closed.contains(&g)).await {
+                        log.lock().unwrap().push("closed".into());
+                    }
+                }
                 log.lock().unwrap().push(format!("g:{}", state_str(state)));
                 match state {
                     ClientState::Connecting => {
@@ -351,6 +487,7 @@ pub async fn run_life(tok: &[&str]) -> String {
                             drop(h);
                         }
                         cur_behaviour = b.clone();
+                        gen += 1;
                         if b == "refuse" {
                             port.refuse();
                         } else {
@@ -361,35 +498,60 @@ pub async fn run_life(tok: &[&str]) -> String {
                                     Ok(c) => c,
                                     Err(e) => return e,
                                 };
+                                // the server listens on a port of its own; the harness relays
+                                let inner = match tokio::net::TcpListener::bind("127.0.0.1:0").await {
+                                    Ok(x) => x,
+                                    Err(e) => return format!("bind-error:{e}"),
+                                };
+                                let inner_addr = inner.local_addr().unwrap();
                                 let (h, t) = create_tls_server_task(
                                     1,
-                                    l,
+                                    inner,
                                     ServerHandlerMap::single(UnitId::new(1), LifeHandler.wrap()),
                                     cfg,
                                     AddressFilter::Any,
                                     DecodeLevel::nothing(),
                                 );
                                 server = Some((h, tokio::spawn(t.run())));
-                                server_attempts += 1;
-                            } else {
                                 let accepts = accepts.clone();
+                                let peer = peer.clone();
                                 listener_task = Some(tokio::spawn(async move {
                                     if let Ok((sock, _)) = l.accept().await {
                                         *accepts.lock().unwrap() += 1;
                                         drop(l);
-                                        serve_connection(sock, b).await;
+                                        relay_connection(sock, inner_addr, gen, peer).await;
+                                    }
+                                }));
+                            } else {
+                                let accepts = accepts.clone();
+                                let peer = peer.clone();
+                                listener_task = Some(tokio::spawn(async move {
+                                    if let Ok((sock, _)) = l.accept().await {
+                                        *accepts.lock().unwrap() += 1;
+                                        drop(l);
+                                        serve_connection(sock, b, gen, peer).await;
                                     }
                                 }));
                             }
                         }
                     }
                     ClientState::Connected => {
+                        open_conn = Some(gen);
                         // tls close: the handshake succeeded, now the server goes away
                         if tls && cur_behaviour == "close" {
                             if let Some((h, t)) = server.take() {
                                 t.abort();
                                 let _ = t.await;
                                 drop(h);
+                            }
+                        } else if !tls
+                            && (cur_behaviour == "close" || cur_behaviour == "garbage" || cur_behaviour == "serve0")
+                        {
+                            // the peer's EOF / garbage shall be there when the session starts: with
+                            // commands queued at this gate both branches of `poll` are ready
+                            let g = gen;
+                            if peer_wait(&peer, 200, |p| p.acted.contains(&g)).await {
+                                tokio::time::sleep(Duration::from_millis(2)).await;
                             }
                         }
                     }
@@ -534,6 +696,74 @@ pub async fn run_life(tok: &[&str]) -> String {
     if tokio::time::timeout(Duration::from_millis(2000), join).await.is_err() {
         fin = "hung";
     }
+    // stops left over when the task has ended: performed on the handles of the ended task
+    // (alternately on the two handles); every call must report shutdown, nothing may be announced
+    if saw_shutdown && fin == "term" {
+        settle_n(5).await;
+        let mut k = 0usize;
+        for stop in stops.iter().skip(stop_idx) {
+            for a in stop.split('+') {
+                if handles.is_empty() {
+                    break;
+                }
+                k += 1;
+                let ch = handles[k % handles.len()].clone();
+                let t = Duration::from_millis(1000);
+                let verdict = |r: Result<Result<(), Shutdown>, tokio::time::error::Elapsed>| match r {
+                    Ok(Ok(())) => "",
+                    Ok(Err(_)) => ":shutdown",
+                    Err(_) => ":blocked",
+                };
+                match a {
+                    "E" => {
+                        let r = verdict(tokio::time::timeout(t, ch.enable()).await);
+                        log.lock().unwrap().push(format!("a:E{r}"));
+                    }
+                    "D" => {
+                        let r = verdict(tokio::time::timeout(t, ch.disable()).await);
+                        log.lock().unwrap().push(format!("a:D{r}"));
+                    }
+                    "S" => {
+                        let r = verdict(tokio::time::timeout(t, ch.shutdown()).await);
+                        log.lock().unwrap().push(format!("a:S{r}"));
+                    }
+                    "X" => {
+                        handles.clear();
+                        log.lock().unwrap().push("a:X".into());
+                    }
+                    a if a.starts_with('L') => {
+                        let d: u32 = a[1..].parse().unwrap_or(0);
+                        let r = verdict(tokio::time::timeout(t, ch.set_decode_level(decode_level(d))).await);
+                        log.lock().unwrap().push(format!("a:L{d}{r}"));
+                    }
+                    "R" => {
+                        rid += 1;
+                        log.lock().unwrap().push(format!("a:R{rid}"));
+                        let r = tokio::time::timeout(
+                            t,
+                            ch.read_holding_registers(
+                                RequestParam::new(UnitId::new(1), Duration::from_millis(req_timeout)),
+                                AddressRange::try_from(0, 1).unwrap(),
+                            ),
+                        )
+                        .await;
+                        let s = match r {
+                            Ok(Ok(v)) => format!("ok.{}", v[0].value),
+                            Ok(Err(e)) => req_err(e),
+                            Err(_) => "pending".into(),
+                        };
+                        log.lock().unwrap().push(format!("done:R{rid}:{s}"));
+                    }
+                    _ => {}
+                }
+            }
+        }
+        // a state announced now would be a second life of the task
+        if let Ok((state, rel)) = gate_rx.try_recv() {
+            log.lock().unwrap().push(format!("g:{}", state_str(state)));
+            let _ = rel.send(());
+        }
+    }
     // after shutdown every handle reports shutdown
     let mut after = "-".to_string();
     if let Some(ch) = handles.first() {
@@ -568,7 +798,7 @@ pub async fn run_life(tok: &[&str]) -> String {
     let n_connecting = entries.iter().filter(|e| *e == "g:Connecting").count();
     let n_connected = entries.iter().filter(|e| *e == "g:Connected").count();
     let acc = *accepts.lock().unwrap();
-    let acc_ok = acc <= n_connecting + 1 && acc + server_attempts >= n_connected;
+    let acc_ok = acc <= n_connecting + 1 && acc >= n_connected;
     format!(
         "{} | shutdown_seen={} fin={} after={} acc={}",
         if l.is_empty() { "-".into() } else { l },
